@@ -118,14 +118,14 @@ func evalOutcome(oc *Outcome) []finding {
 		out = append(out, finding{"Close does not crash", "life-panic:" + t, oc.Panic})
 	}
 	if oc.Hang {
-		out = append(out, finding{"Close returns in bounded time", "life-close-hang:" + t, fmt.Sprintf("Close did not return within %v; library goroutines:\n%s", hangAfter, oc.HangDump)})
+		out = append(out, finding{"Close returns in bounded time", "life-close-hang:" + t, fmt.Sprintf("Close did not return within %d ms; library goroutines:\n%s", oc.Spec.hangAfterMs(), oc.HangDump)})
 		return out
 	}
 	if oc.SetupErr != "" {
 		return out
 	}
 	if oc.CloseMs > oc.BoundMs {
-		out = append(out, finding{"Close returns in bounded time", "life-close-latency:" + t, fmt.Sprintf("Close took %.0f ms, bound %.0f ms (2*WriteTimeout + 3 s)", oc.CloseMs, oc.BoundMs)})
+		out = append(out, finding{"Close returns in bounded time", "life-close-latency:" + t, fmt.Sprintf("Close took %.0f ms, bound %.0f ms (2*WriteTimeout + %d s)", oc.CloseMs, oc.BoundMs, oc.Spec.slackMs()/1000)})
 	}
 	if len(oc.BlockedAt) > 0 {
 		out = append(out, finding{"no goroutine of the closed object is still waiting when Close returns", "life-goroutine-blocked-at-close-return:" + t, strings.Join(oc.BlockedAt, "\n")})
